@@ -208,6 +208,110 @@ def generator_job(job):
     return origin, fault, outcome, res
 
 
+def record_run(job):
+    """One observed run of a generator for WrapTrace: the stage entry points and the file-system calls are wrapped
+    from outside (nothing in the repository is changed); events are logged after the call returns or raises."""
+    origin, toks, fault, which = job
+    import builtins
+    import gtwrap.interface_parser as gparser
+    import gtwrap.template_instantiator as ginst
+    from gtwrap.matlab_wrapper import MatlabWrapper
+    text = safe_text(toks)
+    tmp = tempfile.mkdtemp(prefix="c07t_")
+    out = os.path.join(tmp, "out")
+    events = []
+
+    def ev(kind, ok=True, name=""):
+        events.append({"ev": kind, "ok": bool(ok), "name": name})
+
+    def staged(kind, fn):
+        def wrapped(*a, **k):
+            try:
+                r = fn(*a, **k)
+            except BaseException:
+                ev(kind, False)
+                raise
+            ev(kind, True)
+            return r
+        return wrapped
+
+    def under_out(path):
+        ap = os.path.abspath(os.fspath(path))
+        return os.path.relpath(ap, out) if ap == out or ap.startswith(out + os.sep) else None
+
+    o_open, o_mkdirs, o_mkdir = builtins.open, os.makedirs, os.mkdir
+    o_parse, o_inst = gparser.Module.parseString, ginst.instantiate_namespace
+    o_wf, o_gw = gen.PybindWrapper.wrap_file, MatlabWrapper.generate_wrapper
+
+    def t_open(file, mode="r", *a, **k):
+        rel = under_out(file) if isinstance(file, (str, os.PathLike)) else None
+        if rel is not None and any(c in mode for c in "wax+"):
+            ev("Write", True, rel)
+        return o_open(file, mode, *a, **k)
+
+    def t_mkdirs(path, *a, **k):
+        rel = under_out(path)
+        existed = os.path.isdir(path)
+        r = o_mkdirs(path, *a, **k)
+        if rel is not None and not existed:
+            ev("MakeDir", True, rel)
+        return r
+
+    def t_mkdir(path, *a, **k):
+        rel = under_out(path)
+        r = o_mkdir(path, *a, **k)          # raises when the directory exists: nothing happened, nothing is logged
+        if rel is not None:
+            ev("MakeDir", True, rel)
+        return r
+
+    failed = False
+    try:
+        src = os.path.join(tmp, "in.i")
+        with open(src, "w") as f:
+            f.write(text)
+        os.mkdir(out)
+        gparser.Module.parseString = staticmethod(staged("Parse", o_parse))
+        ginst.instantiate_namespace = staged("Instantiate", o_inst)
+        gen.PybindWrapper.wrap_file = staged("Generate", o_wf)
+        MatlabWrapper.generate_wrapper = staged("Generate", o_gw)
+        builtins.open, os.makedirs, os.mkdir = t_open, t_mkdirs, t_mkdir
+        try:
+            if which == "pybind":
+                w = gen.PybindWrapper(module_name="mod", top_module_namespaces=[""], ignore_classes=[],
+                                      module_template=gen.PYBIND_TPL)
+                w.wrap([src], os.path.join(out, "mod.cpp"))
+            else:
+                w = MatlabWrapper(module_name="mod", top_module_namespace=[""], ignore_classes=[])
+                w.wrap([src], path=out)
+        except Exception:  # noqa: BLE001
+            failed = True
+    finally:
+        builtins.open, os.makedirs, os.mkdir = o_open, o_mkdirs, o_mkdir
+        gparser.Module.parseString = o_parse
+        ginst.instantiate_namespace = o_inst
+        gen.PybindWrapper.wrap_file = o_wf
+        MatlabWrapper.generate_wrapper = o_gw
+        shutil.rmtree(tmp, ignore_errors=True)
+    # pybind's wrap_file spans parse..generate: its own failure event is redundant when an inner stage failed
+    stages = [e for e in events if e["ev"] in ("Parse", "Instantiate", "Generate")]
+    if which == "pybind" and len(stages) >= 2 and not stages[-1]["ok"] and not stages[-2]["ok"]:
+        events.remove(stages[-1])
+    stages = [e for e in events if e["ev"] in ("Parse", "Instantiate", "Generate")]
+    if failed and (not stages or stages[-1]["ok"]) and not any(e["ev"] == "Generate" for e in events):
+        # the exception came from generator code outside the wrapped entry points (MATLAB wrap_namespace)
+        ev("Generate", False)
+    ev("Exit", not failed)
+    flag = {e["ev"]: e["ok"] for e in events if e["ev"] in ("Parse", "Instantiate", "Generate")}
+    outs = []
+    for e in events:
+        if e["ev"] == "Write" and e["name"] not in outs:
+            outs.append(e["name"])
+    return {"id": "", "origin": origin, "fault": list(fault), "which": which, "text": text,
+            "input": {"parses": flag.get("Parse", True), "instantiates": flag.get("Instantiate", True),
+                      "generates": flag.get("Generate", True), "outs": outs},
+            "events": events}
+
+
 def script_job(job):
     """Command-line scripts: non-zero exit <=> nothing written; existing files untouched."""
     origin, toks, fault, which = job
@@ -360,7 +464,38 @@ def main():
         for clause, wit in res:
             wit.update({"origin": origin, "fault": fault})
             rep.violation(clause, "", wit)
-    rep.count("evaluations", nfaults + len(gjobs) + len(sjobs))
+    # the pipeline specification itself: safety invariants and termination / completion under fairness
+    wm = tlc.run("Wrap", "Wrap.cfg", workers=2, timeout=600, deadlock_ok=True)
+    rep.count("states", wm.distinct)
+    rep.count("transitions", wm.generated)
+    # recorded runs of both generators validated against the pipeline specification (Wrap.tla via WrapTrace.tla)
+    tsel = gjobs if thorough else rng.sample(gjobs, min(len(gjobs), 400))
+    tjobs = [(origin, toks, f, which) for (origin, toks, f) in tsel for which in ("pybind", "matlab")]
+    traces = common.pmap(record_run, tjobs, chunksize=4)
+    for k, t in enumerate(traces):
+        t["id"] = "t%d" % k
+    trace_shapes = {}
+    fd, path = tempfile.mkstemp(prefix="wraptrace_", suffix=".json")
+    try:
+        with os.fdopen(fd, "w") as f:
+            json.dump([{"id": t["id"], "input": t["input"], "events": t["events"]} for t in traces], f)
+        wt = tlc.run("WrapTrace", "WrapTrace.cfg", env={"TRACE_FILE": path}, timeout=1800)
+    finally:
+        os.unlink(path)
+    wv = {v[1]: v[2] for v in wt.by_tag("VERDICT")}
+    if len(wv) != len(traces):
+        raise RuntimeError("WrapTrace: %d verdicts for %d traces" % (len(wv), len(traces)))
+    rep.count("states", wt.distinct)
+    rep.count("transitions", wt.generated)
+    for t in traces:
+        shape = "%s:%s" % (t["which"], ">".join("%s%s" % (e["ev"], "" if e["ok"] else "!") for e in t["events"]
+                                                if e["ev"] not in ("Write", "MakeDir")))
+        trace_shapes[shape] = trace_shapes.get(shape, 0) + 1
+        if wv[t["id"]]:
+            rep.violation("run-is-not-a-behaviour-of-Wrap", "",
+                          {"verdict": wv[t["id"]], "which": t["which"], "origin": t["origin"], "fault": t["fault"],
+                           "text": t["text"], "events": t["events"][:40]})
+    rep.count("evaluations", nfaults + len(gjobs) + len(sjobs) + len(tjobs))
     rep.cov["distinct_nontrivial"] = nfaults
     rep.cov["rule"] = ("one evaluation = one (module, fault) pair of the fault model Corrupt!ApplyCorrupt replayed into "
                        "Module.parseString (all faults of each module unless sampled: see exhaustive_per_module), "
@@ -371,6 +506,7 @@ def main():
     rep.cov["accepted_validated_by_tlc"] = len(batch)
     rep.cov["generator_outcomes(pybind,matlab)"] = gen_outcomes
     rep.cov["script_exit_codes"] = script_rc
+    rep.cov["recorded_runs_validated_against_Wrap"] = trace_shapes
     rep.cov["modules"] = len(bases)
     if accepted:
         rep.sample({"accepted_corruption": safe_text(accepted[0][1])[:300], "fault": accepted[0][2]})
